@@ -9,7 +9,7 @@ EXPLANATION = ("Every modelling helper of SolverWrapper is executed (real source
 
 
 def units(tier):
-    return [f() for f in sw.UNITS]
+    return sw.all_units()
 
 
 def bounded(tier, seed):
